@@ -328,6 +328,7 @@ func (fr *frame) inline(fn *ssa.Function, args []*Val, bindings []*Val, resT typ
 	res, exitReach, exitSt := nf.run(args, bindings, st, reach)
 	u.inlineStack = u.inlineStack[:len(u.inlineStack)-1]
 	if !fr.pure {
+		fr.done = append(fr.done, nf)
 		*st = *exitSt
 		// Only executions in which the callee returns continue in the caller: the paths cut at the callee's loop back
 		// edges (and its panicking paths, each already obliged unreachable) end inside the callee.
@@ -702,6 +703,12 @@ func (fr *frame) freshResult(resT types.Type, st *State, reach string) *Val {
 			return &Val{t: u.define("fresh", "Iface", fmt.Sprintf("(mk-iface %s %s)", tag, ref))}
 		case *types.Pointer, *types.Map:
 			return &Val{t: fr.allocRef(st)}
+		case *types.Slice:
+			// a slice the callee allocated: nil, or a window of an array nobody else holds
+			v := fr.unconstrained(t, "fresh", st, reach)
+			ref := fr.allocRef(st)
+			u.assume(reach, fmt.Sprintf("(or (= %s (mk-slice 0 0 0 0)) (= (s-arr %s) %s))", v.t, v.t, ref))
+			return v
 		}
 		return fr.unconstrained(t, "fresh", st, reach)
 	}
